@@ -132,6 +132,7 @@ func checkMetricTables(w *W, md *metricDesc, repeats int) {
 			ints = append(ints, b+d)
 		}
 	}
+	ints = append(ints, wrapInts...)
 	for _, v := range ints {
 		if defined[v] {
 			continue
@@ -258,6 +259,20 @@ func runC20(r *Run) int {
 			cands = append(cands, b+c, c+b, b+c+b)
 		}
 	}
+	// runs of two or three codes of one metric joined by a separator, bare and enclosed in it (a lookup by
+	// substring search in a packed list of codes)
+	for _, md := range descs {
+		for i := range md.codes {
+			for j := range md.codes {
+				for _, sep := range []string{",", ";", "|", " ", "/", ":", "\x00"} {
+					cands = append(cands, md.codes[i]+sep+md.codes[j], sep+md.codes[i]+sep, sep+md.codes[i], md.codes[i]+sep)
+					if k := (i + j + 1) % len(md.codes); sep == "," || sep == "|" {
+						cands = append(cands, md.codes[i]+sep+md.codes[j]+sep+md.codes[k])
+					}
+				}
+			}
+		}
+	}
 	cands = append(cands, "None", "High", "Low", "Network", "NOTDEFINED", "Not Defined", "x", "nd", "Nd", "poc", "\xff", string(make([]byte, 4096)))
 	var wsum atomic.Int64
 	// two passes: the second one runs after every metric of both versions has been looked up (a lookup
@@ -378,6 +393,21 @@ func checkVersions(w *W, cands []string, repeats int) {
 			}
 		})
 	}
+	// complete labels of the supported versions with something in front of, behind or inside "CVSS:"
+	for _, label := range spec.V3Versions {
+		full := "CVSS:" + label
+		for _, o := range []string{"\ufeff" + full, "\xff\xfe" + full, "\xfe\xff" + full, " " + full, "\t" + full, "\n" + full, "\x00" + full, full + "\ufeff", full + " ", full + "\x00", full + "\n", full + "/",
+			"cvss:" + label, "Cvss:" + label, "CVSS：" + label, "CVSS: " + label, "CVSS :" + label, "CVSS::" + label, "CVSS=" + label, "CVSS" + label, "CVSSv" + label, "CVSS:v" + label, "\u200bCVSS:" + label, "CVSS:\u200b" + label, "CVSS:\ufeff" + label, "(" + full + ")", "\"" + full + "\""} {
+			w.Eval(1)
+			c := Case{Type: "code", Kind: "v3.VersionLabel"}
+			c.SetInput(o)
+			guard(w, c, "version API", func() {
+				if v, err := lib.GetVersion3(o); v != lib.VerUnknown3 {
+					w.Violate(Violation{Monitor: "C20", Check: "GetVersion maps any other label to unknown", Case: c, Observed: fmt.Sprint(v, " ", err), Expected: lib.VerUnknown3})
+				}
+			})
+		}
+	}
 	for n := -2; n <= 6; n++ {
 		if n == lib.Ver3[0] || n == lib.Ver3[1] {
 			continue
@@ -404,7 +434,7 @@ func replayC20(r *Run, c Case) {
 			fmt.Printf("replay %s code %q: Get=%d String(of that)=%q\n", c.Kind, c.GetInput(), md.ops.Get(c.GetInput()), md.ops.Str(md.ops.Get(c.GetInput())))
 		}
 	}
-	if c.Kind == "v3.Version" || c.Kind == "v3.Scope" || c.Kind == "v3.ModifiedScope" {
+	if c.Kind == "v3.Version" || c.Kind == "v3.VersionLabel" || c.Kind == "v3.Scope" || c.Kind == "v3.ModifiedScope" {
 		checkVersions(w, []string{c.GetInput()}, 64)
 	}
 }
